@@ -64,7 +64,8 @@ type Program struct {
 	Lits   []LitInfo
 	curPkg int
 	// ExtraLd are -X flags contributed by generated (gen) features.
-	ExtraLd []string
+	ExtraLd        []string
+	pendingUseDecl string
 }
 
 // LitInfo describes one marker literal.
@@ -414,6 +415,10 @@ func Render(s Spec) *Program {
 		if def.gen != nil {
 			p.curPkg = f.Prov
 			provTmpl, useTmpl = def.gen(fi, f, p)
+			if p.pendingUseDecl != "" {
+				useDeclTmpl += p.pendingUseDecl
+				p.pendingUseDecl = ""
+			}
 		}
 		if def.sinks != "" {
 			provTmpl += "\nvar Sink@MKw = []any{" + def.sinks + "}\n"
